@@ -819,4 +819,12 @@ def rule_coroutines(ctx):
     rule_coroutines_run(ctx, 'C15.d', ['rsocket', 'reactivestreams'], 'library coroutine calls')
 
 
-RULES = [('C20.a', rule_a), ('C20.b', c06a), ('C20.c', c06b), ('C20.d', rule_d), ('C20.e', rule_e), ('C20.f', rule_f), ('C20.g', rule_g), ('C20.e+C20.g', rule_h), ('C15.d', rule_coroutines), ('C20.i', rule_i), ('C20.j', rule_j), ('C20.k', rule_k)]
+def rule_queue_sources(ctx):
+    """(shared C06.e) observable_from_queue / the back-pressure factories of both Rx adapters drain their queue through
+    async_generator_from_queue: every dequeued value is yielded and only the stop value - recognised by identity, not by
+    the elements' own __eq__ - ends the generator (rules/sources.py)."""
+    from .sources import rule_small_sources
+    rule_small_sources(ctx, 'C06.e')
+
+
+RULES = [('C20.a', rule_a), ('C20.b', c06a), ('C20.c', c06b), ('C20.d', rule_d), ('C20.e', rule_e), ('C20.f', rule_f), ('C20.g', rule_g), ('C20.e+C20.g', rule_h), ('C15.d', rule_coroutines), ('C20.i', rule_i), ('C20.j', rule_j), ('C20.k', rule_k), ('C06.e', rule_queue_sources)]
